@@ -334,14 +334,20 @@ class OptionsDictionary(object):
         None
             Yields None after entering a temporary context.
         """
-        for option, val in kwargs.items():
-            if option not in self._context_cache:
-                self._context_cache[option] = []
-            self._context_cache[option].append(self[option])
-            self[option] = val
-        yield
-        for option in kwargs:
-            self[option] = self._context_cache[option].pop()
+        changed = []
+        try:
+            for option, val in kwargs.items():
+                old_val = self[option]
+                self[option] = val
+                if option not in self._context_cache:
+                    self._context_cache[option] = []
+                self._context_cache[option].append(old_val)
+                changed.append(option)
+            yield
+        finally:
+            # restore whatever was changed, also if the block (or entering it) raised
+            for option in reversed(changed):
+                self[option] = self._context_cache[option].pop()
             if len(self._context_cache[option]) == 0:
                 self._context_cache.pop(option)
 
